@@ -18,7 +18,7 @@ from decimal import Decimal, ROUND_HALF_UP, ROUND_DOWN, ROUND_UP
 from . import (
     get_error, raise_errors, is_number, flatten, wrap_ufunc, wrap_func,
     replace_empty, Error, xfilter, wrap_impure_func, COMPILING, to_number,
-    clean_values, Array, XlError
+    clean_values, Array, XlError, convert_nan
 )
 
 # noinspection PyDictCreation
@@ -227,7 +227,12 @@ FUNCTIONS['MINVERSE'] = wrap_func(
 
 def xmmult(x, y):
     raise_errors(x, y)
-    return np.dot(x, y).astype(float).view(Array)
+    res = np.dot(x, y).astype(float)
+    overflow = ~np.isfinite(res)
+    if overflow.any():
+        res = np.asarray(res, object)
+        res[overflow] = Error.errors['#NUM!']
+    return res.view(Array)
 
 
 FUNCTIONS['MMULT'] = wrap_func(xmmult)
@@ -388,7 +393,8 @@ def xsumproduct(*args):
     raise_errors(args)
     inp = np.asarray(args).reshape((len(args), -1))
     inp = inp[:, ~(inp == np.array(sh.EMPTY, dtype=object)).any(axis=0)]
-    return np.sum(np.prod(np.nan_to_num(to_number(inp).astype(float)), axis=0))
+    inp = np.nan_to_num(to_number(inp).astype(float))
+    return convert_nan(np.sum(np.prod(inp, axis=0)))
 
 
 FUNCTIONS['SUMPRODUCT'] = wrap_func(xsumproduct)
@@ -418,7 +424,7 @@ def xsum(*args, func=np.sum):
             a = float(a)
         inp.append(np.asarray(a).reshape(1, -1))
     inp = to_number(clean_values(np.concatenate(inp, 1))).astype(float).ravel()
-    return func(inp[~np.isnan(inp)])
+    return convert_nan(func(inp[~np.isnan(inp)]))
 
 
 FUNCTIONS['PRODUCT'] = wrap_func(functools.partial(
